@@ -85,6 +85,28 @@ func NewCluster(base string, n, t int, tag string) *Cluster {
 	return cl
 }
 
+// NewClusterIdx: participants are the machines idx[0], idx[1], ... of the tag's family (machine k
+// always has the same mnemonic and user name), in this order
+func NewClusterIdx(base string, t int, tag string, idx []int) *Cluster {
+	cl := &Cluster{Dir: base, N: len(idx), T: t, Password: []byte("correct horse")}
+	os.MkdirAll(base, 0755)
+	for k, i := range idx {
+		u := fmt.Sprintf("user%d", i)
+		cl.Users = append(cl.Users, u)
+		ne := NewNodeEnv(filepath.Join(base, fmt.Sprintf("node-%d", k)), u)
+		ne.Board.Close()
+		cl.Nodes = append(cl.Nodes, ne)
+		md := filepath.Join(base, fmt.Sprintf("airgapped-%d", k))
+		mn := mnemonicFor(i, tag)
+		cl.MDirs = append(cl.MDirs, md)
+		cl.Mnemonic = append(cl.Mnemonic, mn)
+		cl.Machines = append(cl.Machines, openMachine(md, cl.Password, mn, true))
+	}
+	cl.Offsets = make([]uint64, len(idx))
+	cl.Log = make([][]storage.Message, len(idx))
+	return cl
+}
+
 func (cl *Cluster) Close() {
 	for _, m := range cl.Machines {
 		m.VerifClose()
